@@ -170,6 +170,9 @@ def gen_chain_scene(
             scene["actuators"].append({"type": "motor", "joint": j, "tau": float(rng.uniform(-4, 4)), "time": str(rng.choice(["const", "sin", "cos"])), "w": float(rng.uniform(1, 5))})
         elif allow_actuators and not conservative and x < 0.7:
             scene["actuators"].append({"type": "pd", "joint": j, "kp": float(rng.uniform(1, 10)), "kd": float(rng.uniform(0.1, 1)), "target": [float(rng.uniform(-1, 1)), 0.0]})
+        elif allow_actuators and not conservative and x < 0.8:
+            # PID controller: the integral of the control error is a position coordinate without velocity
+            scene["actuators"].append({"type": "pid", "joint": j, "kp": float(rng.uniform(1, 10)), "ki": float(rng.uniform(0.5, 8)), "kd": float(rng.uniform(0.1, 1)), "target": [float(rng.uniform(-1, 1)), 0.0], "q0": float(rng.choice([0.0, rng.uniform(-0.3, 0.3)]))})
     # applied forces
     if not conservative:
         for _ in range(int(rng.integers(0, 2))):
